@@ -1343,7 +1343,8 @@ class FuncEscapePattern(ValueFunc):
                 "the result can be used in pattern matching to match",
                 "the literal string.",
                 "",
-                "Currently, the | and . characters are escaped.",
+                "All characters with a special meaning in patterns",
+                "are escaped: \\ . ^ $ | ? * + ( ) [ ] { }",
                 "",
                 ": escape_pattern('|') ==> '\\\\|'",
                 ": escape_pattern('|.|') ==> '\\\\|\\\\.\\\\|'",
@@ -1357,7 +1358,11 @@ class FuncEscapePattern(ValueFunc):
         if args.isNull("s"):
             return NULL
         value = args.getString("s").value
-        return ValueString(value.replace("|", "\\|").replace(".", "\\."))
+        return ValueString(
+            "".join(
+                "\\" + ch if ch in "\\.^$|?*+()[]{}" else ch for ch in value
+            )
+        )
 
 
 class FuncEval(ValueFunc):
